@@ -41,7 +41,7 @@ type Input struct {
 var names = []string{"", "gospy", "ebpfspy", "samples", "objects", "bytes", "sum", "average", "sp\"y", "ünïts", "a b", "x\\y"}
 
 // valid but exotic: characters encoding/json escapes, NUL, line separators, non-BMP, a genuine U+FFFD
-var exotic = []string{"<>&\"\\", "a\u2028b\u2029", "a\x00b", "\U0001F600spy", "\ufffd", "\x7f\t\n", "é\u0301ü"}
+var exotic = []string{"<>&\"\\", "a\u2028b\u2029", "a\x00b", "\U0001F600spy", "\ufffd", "\x7f\t\n", "é\u0301ü", "\b\f\r\x1f\x01/", "\\u0041\\n", "\U0010FFFF\uFFFF\u07ff\u0800"}
 
 // invalid UTF-8 (spy name and units arrive as URL query parameters: a client can send these)
 var invalid = []string{"go\xffspy", "un\xfeits", "\xc3", "\xe2\x82", "a\xed\xa0\x80b", "\xf4\x90\x80\x80", "\xc0\xaf", "ok\x80", "\xf0\x9f\x98"}
